@@ -20,10 +20,11 @@ Lemma future_cancel_actions : same_paths (fn_paths conc_Future_Cancel) future_ca
 Lemma is_done_actions : same_paths (fn_paths conc_Future_IsDone) is_done_paths = true. Proof. vm_compute. reflexivity. Qed.
 Lemma is_cancelled_actions : same_paths (fn_paths conc_Future_IsCancelled) is_cancelled_paths = true. Proof. vm_compute. reflexivity. Qed.
 Lemma new_future_actions : same_paths (fn_paths conc_NewFuture) new_future_paths = true. Proof. vm_compute. reflexivity. Qed.
-(** the builtins future-cancelled? / future-done? / future-cancel go through the locked accessors *)
+(** the builtins future-cancelled? / future-done? / future-cancel go through the locked accessors (the translator
+    expands straight-line accessors in place: what the builtins do is the accessor's locked read) *)
 Lemma status_builtins_actions :
-  same_paths (fn_paths conc_Load_lit4) [[own "IsCancelled"]] = true /\
-  same_paths (fn_paths conc_Load_lit5) [[own "IsDone"]] = true /\
+  same_paths (fn_paths conc_Load_lit4) is_cancelled_paths = true /\
+  same_paths (fn_paths conc_Load_lit5) is_done_paths = true /\
   same_paths (fn_paths conc_future_cancel) [[own "Cancel"]] = true.
 Proof. repeat split; vm_compute; reflexivity. Qed.
 
